@@ -97,6 +97,11 @@ func (vc *VC) mergeVals(name string, vals []Val, pcs []Term) Val {
 				continue
 			}
 			vc.assumeGlobal(Implies(pcs[i], Eq(n, t)))
+			if vc.deg != nil && v0.Sort == SReal {
+				if d := vc.degOf(t); d > vc.deg[n.S] {
+					vc.deg[n.S] = d
+				}
+			}
 		}
 		return n
 	case *StructV:
